@@ -138,4 +138,280 @@ theorem requestMintQuote_cases (cx : Cx) (qid : Nat) (amount : UInt64) (unitSat 
     exact ⟨_, rfl, ⟨rfl, rfl, by simpa using hfresh, by simpa using hlow, by simpa using hmax, by cases u; exact hbal, hc⟩⟩
 
 
+/-! ## Melt quote request, watcher, rotation -/
+
+/-- The plan never quotes less than what will be paid: 1000·amount ≥ msat paid (F2), for msat below 2^63. -/
+theorem ceilSat_covers (m : UInt64) (h : m.toNat < 2 ^ 63) : m.toNat ≤ (ceilSat m).toNat * 1000 := by
+  unfold ceilSat
+  have h999 : (999 : UInt64).toNat = 999 := by decide
+  have h1000 : (1000 : UInt64).toNat = 1000 := by decide
+  rw [UInt64.toNat_div, UInt64.toNat_add, h999, h1000]
+  have : (m.toNat + 999) % 2 ^ 64 = m.toNat + 999 := Nat.mod_eq_of_lt (by omega)
+  rw [this]
+  omega
+
+theorem meltQuotePlan_ok {cfg : Cfg} {msat : UInt64} {mpp : Option UInt64} {int : Bool} {p : Bool × UInt64 × UInt64}
+    (h : meltQuotePlan cfg msat mpp int = .ok p) :
+    (mpp = none ∧ p = (false, 0, ceilSat msat)) ∨
+    (∃ m, mpp = some m ∧ cfg.mpp = true ∧ int = false ∧ m < msat ∧ p = (true, m, ceilSat m)) := by
+  unfold meltQuotePlan at h
+  cases mpp with
+  | none => left; simp only [] at h; injection h with h; exact ⟨rfl, h.symm⟩
+  | some m =>
+    right
+    simp only [] at h
+    split at h
+    · split at h; · cases h
+      split at h; · cases h
+      rename_i h1 h2 h3
+      injection h with h
+      exact ⟨m, rfl, h1, by simpa using h2, by simpa using h3, h.symm⟩
+    · cases h
+
+/-- Facts about an accepted melt-quote request (C16 limit; C02: the quoted amount covers the msat to be paid). -/
+structure MeltQuoteOk (cx : Cx) (qid : Nat) (h : Nat) (msat : UInt64) (mpp : Option UInt64) (s s' : DL) (q : MeltQ) : Prop where
+  db : s'.1 = { s.1 with meltQ := s.1.meltQ ++ [q] }
+  ln : s'.2 = s.2
+  id : q.id = qid ∧ q.inv = h ∧ q.hash = h ∧ q.state = .unpaid ∧ q.preimage = 0
+  nonzero : msat ≠ 0
+  plan : meltQuotePlan cx.cfg msat mpp (dbGetMintQByHash s.1 h).toBool = .ok (q.isMpp, q.amountMsat, q.amount)
+  maxMelt : ¬ (cx.cfg.maxMelt > 0 ∧ q.amount > cx.cfg.maxMelt)
+  reserve : q.feeReserve = reserveFor (dbGetMintQByHash s.1 h).toBool (lnFee s.2 q.amount)
+  noOther : (dbGetMeltQByReq s.1 h).toBool = false
+
+theorem requestMeltQuote_cases (cx : Cx) (qid : Nat) (inv : InvReq) (msatOf : Nat → UInt64) (unitSat : Bool) (mpp : Option UInt64)
+    (s s' : DL) (r : Except E MeltQ) (hr : runM (requestMeltQuote cx qid inv msatOf unitSat mpp) s = (s', r)) :
+    (∃ e, r = .error e ∧ s' = s) ∨
+    (∃ h q, inv = .inv h ∧ r = .ok q ∧ MeltQuoteOk cx qid h (msatOf h) mpp s s' q) := by
+  obtain ⟨db, ln⟩ := s
+  simp only [requestMeltQuote] at hr
+  prog_simp [runM_pure] at hr
+  split at hr; · left; cases hr; exact ⟨_, rfl, rfl⟩
+  cases inv with
+  | bad => simp only [] at hr; left; cases hr; exact ⟨_, rfl, rfl⟩
+  | inv h =>
+    simp only [] at hr
+    prog_simp [runM_pure] at hr
+    split at hr; · left; cases hr; exact ⟨_, rfl, rfl⟩
+    rename_i _ hnz
+    split at hr
+    rotate_left; · left; cases hr; exact ⟨_, rfl, rfl⟩
+    rename_i plan hplan
+    split at hr; · left; cases hr; exact ⟨_, rfl, rfl⟩
+    split at hr; · left; cases hr; exact ⟨_, rfl, rfl⟩
+    split at hr; · left; cases hr; exact ⟨_, rfl, rfl⟩
+    split at hr; · left; cases hr; exact ⟨_, rfl, rfl⟩
+    rename_i hmax hex _ _
+    cases hr
+    right
+    exact ⟨h, _, rfl, rfl, ⟨rfl, rfl, ⟨rfl, rfl, rfl, rfl, rfl⟩, by simpa using hnz, by simpa using hplan, by simpa using hmax, rfl,
+      by simpa using hex⟩⟩
+
+/-- The invoice watcher after F11: it writes PAID only over UNPAID. -/
+theorem watcher_cases (qid : Nat) (s s' : DL) (r : Except E Bool) (h : runM (watcherNotified qid) s = (s', r)) :
+    s'.2 = s.2 ∧
+    ((r = .ok false ∧ s' = s) ∨
+     (∃ q, dbGetMintQ s.1 qid = .ok q ∧ q.state = .unpaid ∧ r = .ok true ∧
+        s'.1 = { s.1 with mintQ := updMintQ s.1.mintQ qid .paid })) := by
+  obtain ⟨db, ln⟩ := s
+  simp only [watcherNotified] at h
+  prog_simp [runM_pure] at h
+  cases hq : dbGetMintQ db qid with
+  | error e => simp only [hq] at h; cases h; exact ⟨rfl, Or.inl ⟨rfl, rfl⟩⟩
+  | ok q =>
+    simp only [hq] at h
+    split at h
+    · cases h; exact ⟨rfl, Or.inl ⟨rfl, rfl⟩⟩
+    · rename_i hst
+      prog_simp [runM_pure] at h
+      have hany : db.mintQ.any (·.id == qid) = true := by
+        unfold dbGetMintQ at hq
+        split at hq
+        · rename_i q' hf
+          have hm := List.mem_of_find?_eq_some hf
+          have hp := List.find?_some hf
+          simp only [List.any_eq_true]
+          refine ⟨q', hm, ?_⟩
+          have : (qid : Int) = (q'.id : Int) := by simpa [intIs] using hp
+          have := Int.ofNat.inj this
+          simp [this]
+        · cases hq
+      simp only [hany, if_true] at h
+      cases h
+      refine ⟨rfl, Or.inr ⟨q, rfl, ?_, rfl, rfl⟩⟩
+      cases hs : q.state <;> simp_all
+
+
+/-! ## Balance query and keyset rotation -/
+
+theorem runM_rawIssued_bind {β : Type} (f : List (Nat × UInt64) → PM β) (db : DB) (ln : LN) :
+    runM (rawTry .getIssued >>= f) (db, ln) =
+      match groupSum (db.sigs.map (fun s => (s.ks, s.amount))) with
+      | .ok v => runM (f v) (db, ln)
+      | .error _ => ((db, ln), .error (0, "raw")) := by
+  rw [runM_bind]; simp only [rawTry]; rw [runM_eff_bind]; simp only [stepDL, execDb]
+  cases groupSum (db.sigs.map (fun s => (s.ks, s.amount))) <;> rfl
+
+theorem runM_rawRedeemed_bind {β : Type} (f : List (Nat × UInt64) → PM β) (db : DB) (ln : LN) :
+    runM (rawTry .getRedeemed >>= f) (db, ln) =
+      match groupSum (db.spent.map (fun r => (ksIdx r.ks, r.amount))) with
+      | .ok v => runM (f v) (db, ln)
+      | .error _ => ((db, ln), .error (0, "raw")) := by
+  rw [runM_bind]; simp only [rawTry]; rw [runM_eff_bind]; simp only [stepDL, execDb]
+  cases groupSum (db.spent.map (fun r => (ksIdx r.ks, r.amount))) <;> rfl
+
+theorem runM_rawBalance_bind {β : Type} (f : UInt64 → PM β) (s : DL) :
+    runM (rawBalance >>= f) s =
+      match balanceOf s.1 with
+      | .ok v => runM (f v) s
+      | .error _ => (s, .error (0, "raw")) := by
+  rw [runM_bind]; simp only [rawBalance]; rw [runM_liftrun_bind, totalBalance_runM]
+  cases balanceOf s.1 <;> rfl
+
+/-- The balance query only reads; what it reports is `groupSum` of the two tables and `balanceOf`. -/
+theorem balanceOp_cases (cx : Cx) (s s' : DL) (r : Except E Balance) (h : runM (balanceOp cx) s = (s', r)) :
+    s' = s ∧ (∀ b, r = .ok b →
+      groupSum (s.1.sigs.map (fun x => (x.ks, x.amount))) = .ok b.issued ∧
+      groupSum (s.1.spent.map (fun x => (ksIdx x.ks, x.amount))) = .ok b.redeemed ∧
+      balanceOf s.1 = .ok b.total ∧
+      b.disabled = (decide (cx.cfg.maxBalance > 0) && decide (b.total ≥ cx.cfg.maxBalance))) := by
+  obtain ⟨db, ln⟩ := s
+  simp only [balanceOp] at h
+  prog_simp [runM_rawIssued_bind, runM_rawRedeemed_bind, runM_rawBalance_bind] at h
+  cases hi : groupSum (db.sigs.map (fun s => (s.ks, s.amount))) with
+  | error e => simp only [hi] at h; cases h; exact ⟨rfl, fun b hb => by cases hb⟩
+  | ok i =>
+    simp only [hi] at h
+    cases hr : groupSum (db.spent.map (fun r => (ksIdx r.ks, r.amount))) with
+    | error e => simp only [hr] at h; cases h; exact ⟨rfl, fun b hb => by cases hb⟩
+    | ok rd =>
+      simp only [hr] at h
+      cases hb : balanceOf db with
+      | error e => simp only [hb] at h; cases h; exact ⟨rfl, fun b hb => by cases hb⟩
+      | ok t =>
+        simp only [hb] at h
+        cases h
+        refine ⟨rfl, fun b hb' => ?_⟩
+        injection hb' with hb'; subst hb'
+        exact ⟨rfl, rfl, rfl, rfl⟩
+
+/-- `RotateKeyset` touches only the keysets table: the old active row is deactivated, the new row appended. -/
+theorem rotate_cases (mem : Mem) (fee : UInt64) (s : DL) :
+    (runDL (rotateKeyset mem fee) s).1.2 = s.2 ∧
+    (∃ ks, (runDL (rotateKeyset mem fee) s).1.1 = { s.1 with keysets := ks }) := by
+  obtain ⟨db, ln⟩ := s
+  simp only [rotateKeyset, Prog.call, bind, Prog.bind, runDL, stepDL, execDb, pure]
+  by_cases h1 : (db.keysets.any fun x => x.idx == mem.active) = true
+  · simp only [h1, if_true, Prog.bind, runDL, stepDL, execDb]
+    by_cases h2 : (List.map (fun k => if (k.idx == mem.active) = true then ({ k with active := false } : KsRow) else k) db.keysets).any
+        (fun x => x.idx == mem.active + 1) = true
+    · simp only [h2, if_true, runDL]; exact ⟨trivial, _, rfl⟩
+    · simp only [h2, runDL]; first | exact ⟨rfl, _, rfl⟩ | exact ⟨trivial, _, rfl⟩
+  · simp only [h1, runDL]; first | exact ⟨rfl, _, rfl⟩ | exact ⟨trivial, _, rfl⟩
+
+
+/-! ## `disjoint` (no secret both locked and spent) along sequential operations -/
+
+def Disj (db : DB) : Prop := ∀ r ∈ db.pending, r.y ∉ ysOf db.spent
+
+theorem Disj.frame {db db' : DB} (h : Disj db) (hs : db'.spent = db.spent) (hp : db'.pending = db.pending) : Disj db' := by
+  intro r hr; rw [hs]; rw [hp] at hr; exact h r hr
+
+theorem ysOf_append (a b : List PRow) : ysOf (a ++ b) = ysOf a ++ ysOf b := by simp [ysOf]
+
+theorem ysOf_rows (ps : List Proof) : ysOf (ps.map Proof.row) = ps.map (·.secret) := by
+  simp [ysOf, Proof.row, List.map_map, Function.comp_def]
+
+theorem disj_swap (cx : Cx) (ps : List Proof) (outs : List BMsg) (v : Option E) (s s' : DL) (r : Except E (List BSig))
+    (hd : Disj s.1) (h : runM (swap cx ps outs v) s = (s', r)) : Disj s'.1 := by
+  rcases swap_cases cx ps outs v s s' r h with ⟨e, _, rfl⟩ | ⟨sigs, _, hok⟩
+  · exact hd
+  · rw [hok.db]
+    intro x hx
+    simp only [] at hx ⊢
+    rw [ysOf_append, ysOf_rows, List.mem_append]
+    rintro (hm | hm)
+    · exact hd x hx hm
+    · obtain ⟨p, hp, hpe⟩ := List.mem_map.1 hm
+      obtain ⟨_, hfp, _⟩ := verifySpec_ok_fresh hok.verified
+      apply hfp p hp
+      simp only [ysOf, List.mem_map]
+      exact ⟨x, hx, hpe.symm⟩
+
+theorem mem_lockRows {q : MeltQ} {ps : List Proof} {x : PRow} (h : x ∈ lockRows q ps) : x.y ∈ ps.map (·.secret) := by
+  simp only [lockRows, List.mem_map] at h
+  obtain ⟨r, ⟨p, hp, rfl⟩, rfl⟩ := h
+  exact List.mem_map.2 ⟨p, hp, rfl⟩
+
+theorem disj_tail (db : DB) (q q' : MeltQ) (ps : List Proof) (pre : Nat) (st : LQState) (hd : Disj db)
+    (hfs : ∀ p ∈ ps, p.secret ∉ ysOf db.spent) : Disj (tailDb (lockedDb db q ps) q' ps pre st) := by
+  cases st
+  · -- unpaid: locked rows removed again
+    intro x hx
+    simp only [tailDb, lockedDb, List.mem_filter, List.mem_append] at hx ⊢
+    obtain ⟨hx | hx, hn⟩ := hx
+    · exact hd x hx
+    · exfalso
+      have := mem_lockRows hx
+      simp only [List.contains_eq_mem, this, decide_true, Bool.not_true] at hn
+      exact Bool.false_ne_true hn
+  · -- pending: the inputs are locked
+    intro x hx
+    simp only [tailDb, lockedDb, List.mem_append] at hx ⊢
+    rcases hx with hx | hx
+    · exact hd x hx
+    · obtain ⟨p, hp, hpe⟩ := List.mem_map.1 (mem_lockRows hx)
+      rw [← hpe]; exact hfs p hp
+  · -- paid: locked rows moved to spent
+    intro x hx
+    simp only [tailDb, lockedDb, List.mem_filter, List.mem_append] at hx ⊢
+    obtain ⟨hx | hx, hn⟩ := hx
+    · rw [ysOf_append, ysOf_rows, List.mem_append]
+      rintro (hm | hm)
+      · exact hd x hx hm
+      · simp only [List.contains_eq_mem, hm, decide_true, Bool.not_true] at hn
+        exact Bool.false_ne_true hn
+    · exfalso
+      have := mem_lockRows hx
+      simp only [List.contains_eq_mem, this, decide_true, Bool.not_true] at hn
+      exact Bool.false_ne_true hn
+
+theorem disj_melt (cx : Cx) (qid : Int) (ps : List Proof) (s s' : DL) (r : Except E MeltQ)
+    (hd : Disj s.1) (h : runM (meltTokens cx qid ps) s = (s', r)) : Disj s'.1 := by
+  rcases melt_cases cx qid ps s s' r h with ⟨e, _, rfl⟩ | ⟨q, hacc, hcase⟩
+  · exact hd
+  · obtain ⟨_, _, hfs, _⟩ := verifySpec_ok_fresh hacc.verified
+    rcases hcase with ⟨_, _, hdb⟩ | ⟨mq, _, ⟨_, hdb⟩ | ⟨_, hdb⟩⟩
+    · rw [hdb]; exact disj_tail _ _ _ _ _ _ hd hfs
+    · rw [hdb]
+      exact Disj.frame (disj_tail s.1 q { q with state := .pending } ps (mq.hash + 1) .paid hd hfs) rfl rfl
+    · rw [hdb]; exact disj_tail _ _ _ _ _ _ hd hfs
+
+theorem disj_poll (qid : Int) (s s' : DL) (r : Except E MeltQ) (hwf : PendingWf s.1)
+    (h : runM (getMeltQuoteState qid) s = (s', r)) : Disj s'.1 := by
+  have hd : Disj s.1 := hwf.disjoint
+  rcases poll_cases qid s s' r hwf h with ⟨_, _, rfl⟩ | ⟨q, _, ⟨_, _, rfl⟩ | ⟨_, _, hdb⟩⟩
+  · exact hd
+  · exact hd
+  · rw [hdb]
+    cases pollOutcome (ans0 s.2)
+    · intro x hx
+      simp only [pollDb, List.mem_filter] at hx ⊢
+      exact hd x hx.1
+    · exact hd
+    · intro x hx
+      simp only [pollDb, List.mem_filter] at hx ⊢
+      rw [ysOf_append, List.mem_append]
+      rintro (hm | hm)
+      · exact hd x hx.1 hm
+      · have : x.y ∈ quoteYs s.1 q.id := by
+          simp only [quoteRows, ysOf, List.map_map, List.mem_map, Function.comp] at hm
+          obtain ⟨r0, hr0, hr0e⟩ := hm
+          simp only [quoteYs, List.mem_map]
+          exact ⟨r0, hr0, hr0e⟩
+        have hn := hx.2
+        simp only [List.contains_eq_mem, this, decide_true, Bool.not_true] at hn
+        exact Bool.false_ne_true hn
+
+
 end Gonuts.Model.Mint
